@@ -28,6 +28,7 @@ _MOD = None
 def _job_runner(job):
     """Runs in a forked worker.  Never raises: an exception is returned for triage."""
     t0 = time.time()
+    Result._current = None
     try:
         r = _MOD.run_job(job)
         r.counters["job_seconds"] = r.counters.get("job_seconds", 0) + (time.time() - t0)
@@ -54,7 +55,7 @@ def _job_runner(job):
                 "in_repo": in_repo,
                 "tb": "".join(traceback.format_exception(type(e), e, e.__traceback__))[-4000:],
             },
-            None,
+            Result._current,  # what the job had already established before it died: violations found so far are not lost
         )
 
 
@@ -93,7 +94,9 @@ def execute(mod, jobs, progress=True):
     done = 0
     last = t0
 
-    def account(status, r):
+    def account(status, r, partial=None):
+        if partial is not None and status != "ok" and partial.n_violations:
+            total.merge(partial)
         if status == "ok":
             total.merge(r)
         elif r["in_repo"]:
@@ -113,9 +116,9 @@ def execute(mod, jobs, progress=True):
 
     if n == 1 or len(jobs) <= 1 or os.environ.get("VMC_INLINE") == "1":
         for job in jobs:
-            status, r, _ = _job_runner(job)
+            status, r, part = _job_runner(job)
             done += 1
-            account(status, r)
+            account(status, r, part)
             tick()
         return total, harness_errors
 
@@ -189,9 +192,9 @@ def execute(mod, jobs, progress=True):
             except (EOFError, OSError):
                 got = None
             if got is not None:
-                _, status, r, _ = got
+                _, status, r, part = got
                 done += 1
-                account(status, r)
+                account(status, r, part)
                 feed(sent)
             elif not w[0].is_alive():
                 w[0].join()
